@@ -14,7 +14,7 @@ package common
 //	e<hex>                       hex/base64/base32 text field, as the octets it denotes
 //	N<dec>,<dec>...              []uint16
 //	P<code>:<hex>:<len>;...      []EDNS0 / []SVCBKeyValue (code, packed value, reported len)
-//	A<0|1>:<prefix>:<hex>;...    []APLPrefix (negation, prefix length, masked address)
+//	A<0|1>:<prefix>:<hex>;...    []APLPrefix (negation, prefix length, address as held: 4 or 16 octets)
 //
 // Trailing zero-valued fields are dropped (a record unpacked from truncated RDATA
 // leaves them at their zero value).
@@ -83,11 +83,7 @@ func aplText(ps []dns.APLPrefix) (string, bool) {
 		if p.Negation {
 			neg = "1"
 		}
-		masked := p.Network.IP.Mask(p.Network.Mask)
-		if masked == nil {
-			ok = false
-		}
-		parts = append(parts, fmt.Sprintf("%s:%d:%s", neg, ones, Hx(masked)))
+		parts = append(parts, fmt.Sprintf("%s:%d:%s", neg, ones, Hx(p.Network.IP)))
 	}
 	return "A" + strings.Join(parts, ";"), ok
 }
